@@ -192,6 +192,33 @@ theorem body_length (l : V1Line) : l.body.length = 11 + l.tail.length := by
   unfold V1Line.body
   cases l.kind <;> simp [v1Ident, V1Kind.tag, sTCP4, sTCP6] <;> omega
 
+/-- a line whose fields `net.ParseIP`/`strconv.Atoi` accept is never shorter than the optimistic
+    read of its kind: 32 bytes for `TCP4` (two dotted quads of ≥ 7 characters), 22 for `TCP6`
+    (`::` twice, two one-digit ports) -/
+theorem v1_line_min (l : V1Line) {a d : Bytes} {sp dp : Int}
+    (h1 : parseIP l.src = some a) (h2 : parseIP l.dst = some d)
+    (h3 : atoi l.sport = some sp) (h4 : atoi l.dport = some dp)
+    (hv4 : l.kind = .tcp4 → isV4Text l.src = true ∧ isV4Text l.dst = true) :
+    (match l.kind with | .tcp4 => 32 | .tcp6 => 22) ≤ l.bytes.length := by
+  have := atoi_length h3
+  have := atoi_length h4
+  have hl : l.bytes.length = 11 + l.tail.length + 2 := by
+    simp [V1Line.bytes, body_length, crlf]
+  have ht : l.tail.length = l.src.length + 1 + (l.dst.length + 1 + (l.sport.length + 1 + l.dport.length)) := by
+    simp [V1Line.tail]; omega
+  cases hk : l.kind with
+  | tcp4 =>
+    obtain ⟨v1, v2⟩ := hv4 hk
+    have := parseIP_v4_length v1 h1
+    have := parseIP_v4_length v2 h2
+    show 32 ≤ l.bytes.length
+    omega
+  | tcp6 =>
+    have := parseIP_length h1
+    have := parseIP_length h2
+    show 22 ≤ l.bytes.length
+    omega
+
 theorem parseV1Header_line (l : V1Line) {a d : Bytes} {sp dp : Int}
     (h1 : parseIP l.src = some a) (h2 : parseIP l.dst = some d)
     (h3 : atoi l.sport = some sp) (h4 : atoi l.dport = some dp) :
@@ -231,7 +258,7 @@ theorem firstCRLFEnd_line {body : Bytes} (h : ∀ c ∈ body, c ≠ 13) (p : Byt
   simp [crlf, firstCRLFEnd]
   omega
 
-/-- after an optimistic read of `k` bytes (`k` = 24 or 32): either the line ends exactly there or the
+/-- after an optimistic read of `k` bytes (`k` = 22 or 32): either the line ends exactly there or the
     byte-wise scan finds its end; both hand the line without CRLF to the parser and leave `p`. -/
 theorem v1_after_optimistic {bs body p : Bytes} (hbs : bs = body ++ crlf ++ p)
     (hn : firstCRLFEnd bs = some (body.length + 2)) (k : Nat) (hk1 : 3 ≤ k)
@@ -288,7 +315,7 @@ theorem readHeaderS_v1_line (l : V1Line) {a d : Bytes} {sp dp : Int}
     (h1 : parseIP l.src = some a) (h2 : parseIP l.dst = some d)
     (h3 : atoi l.sport = some sp) (h4 : atoi l.dport = some dp)
     (hmax : l.bytes.length ≤ 107)
-    (hmin : (match l.kind with | .tcp4 => 32 | .tcp6 => 24) ≤ l.bytes.length) (p : Bytes) :
+    (hmin : (match l.kind with | .tcp4 => 32 | .tcp6 => 22) ≤ l.bytes.length) (p : Bytes) :
     readHeaderS (l.bytes ++ p) = .ok (v1Hdr a d sp dp, p) := by
   have c1 := parseIP_clean h1
   have c2 := parseIP_clean h2
@@ -329,10 +356,10 @@ theorem readHeaderS_v1_line (l : V1Line) {a d : Bytes} {sp dp : Int}
     rw [← hfinal]
     exact hopt
   | tcp6 =>
-    have hmin : 24 ≤ l.bytes.length := by simpa [hk] using hmin
-    have h24 : 24 ≤ (l.bytes ++ p).length := by rw [List.length_append]; omega
+    have hmin : 22 ≤ l.bytes.length := by simpa [hk] using hmin
+    have h24 : 22 ≤ (l.bytes ++ p).length := by rw [List.length_append]; omega
     rw [if_pos (by omega)]
-    have hopt := v1_after_optimistic hbs hn 24 (by omega) (by omega) (by omega)
+    have hopt := v1_after_optimistic hbs hn 22 (by omega) (by omega) (by omega)
     have hform : l.bytes ++ p = 80 :: 82 :: 79 :: 88 :: 89 :: 32 :: 84 :: 67 :: 80 :: 54 :: 32 :: (l.tail ++ 13 :: 10 :: p) := by
       simp [V1Line.bytes, V1Line.body, hk, v1Ident, V1Kind.tag, sTCP6, crlf]
     have e1 : v2Ident.isPrefixOf ((l.bytes ++ p).take 13) = false := by
